@@ -15,17 +15,19 @@ EstA(toff, extra) == LET T == DocTransformL(Ref, GE, 2)
                      ELSE [T EXCEPT !.stamps = st]
 EstB(toff) == [DocTransformL(Ref, Pose(14, <<0, 3, 1>>), 1) EXCEPT !.stamps = [k \in 1..4 |-> 10 + Ref.stamps[k] - toff]]
 WalkEst(toff) == Shift(DocTransformL(Walk, GE, 1), -toff)      \* a rigid image of Walk: the motion filter keeps the same poses
+EstC(toff) == [DocTransformL(Ref, Pose(21, <<-3, 0, 5>>), 1) EXCEPT !.stamps = [k \in 1..4 |-> 5 + Ref.stamps[k] - toff]]      \* stamps between those of A and B
 Modes == {"none", "sync", "rigid", "sim", "scale", "origin", "scaleorigin"}
 Idx(sq, x) == CHOOSE k \in DOMAIN sq : sq[k] = x
 \* a reference that starts earlier than every estimate: its first pose has no counterpart
 RefLead == [poses |-> <<Pose(2, <<-4, 0, 0>>)>> \o Ref.poses, stamps |-> <<-10>> \o Ref.stamps, proj |-> FALSE]
 Case(nt, useref, down, mf, merge, toff, mode, tf, s, inv, prop, plane, fmt, export) ==
-  [trajs |-> IF mf >= 10000 THEN <<WalkEst(toff)>> ELSE IF nt = 1 THEN <<EstA(toff, fmt # "kitti")>> ELSE <<EstA(toff, fmt # "kitti"), EstB(toff)>>,
+  [trajs |-> IF mf >= 10000 THEN <<WalkEst(toff)>> ELSE IF nt = 1 THEN <<EstA(toff, fmt # "kitti")>> ELSE IF nt = 2 THEN <<EstA(toff, fmt # "kitti"), EstB(toff)>>
+             ELSE <<EstA(toff, fmt # "kitti"), EstB(toff), EstC(toff)>>,
    ref |-> IF mf >= 10000 THEN Walk ELSE IF useref /\ fmt # "kitti" /\ (nt + down + toff) % 2 = 1 THEN RefLead ELSE Ref, useref |-> useref, fmt |-> fmt, export |-> export,
    q |-> [down |-> down, mf |-> mf, merge |-> merge, toff |-> toff, mode |-> mode, md |-> 0, tf |-> tf, g |-> GT, s |-> s,
           inv |-> inv, prop |-> prop, plane |-> plane]]
 Admissible(x) ==
-  /\ (x.q.merge => Len(x.trajs) = 2 /\ x.fmt # "kitti")
+  /\ (x.q.merge => Len(x.trajs) >= 2 /\ x.fmt # "kitti")
   /\ (x.q.mode # "none" => x.useref /\ (Len(x.trajs) = 1 \/ x.q.merge))
   /\ (x.q.mode \in {"rigid", "sim", "scale", "scaleorigin"} => x.q.down = 0 /\ x.q.mf = 0)        \* keep the point sets non-degenerate
   /\ (x.q.mf >= 10000 => Len(x.trajs) = 1 /\ x.q.down = 0)
@@ -38,7 +40,7 @@ Admissible(x) ==
 Weight(nt, useref, down, mf, merge, toff, mi, ti, s, inv, prop, pi, fi, ei) ==
   nt + 2 * (IF useref THEN 1 ELSE 0) + 3 * down + 5 * mf + 7 * (IF merge THEN 1 ELSE 0) + 11 * toff + 13 * mi + 17 * ti + 19 * s
   + 23 * (IF inv THEN 1 ELSE 0) + 29 * (IF prop THEN 1 ELSE 0) + 31 * pi + 37 * fi + 41 * ei
-Init == \E nt \in 1..2, useref \in BOOLEAN, down \in {0, 1, 2}, mf \in {0, 5, 2001, 10005}, merge \in BOOLEAN, toff \in {0, 2}, mode \in Modes,
+Init == \E nt \in 1..3, useref \in BOOLEAN, down \in {0, 1, 2}, mf \in {0, 5, 2001, 10005}, merge \in BOOLEAN, toff \in {0, 2}, mode \in Modes,
            tf \in {"none", "left", "right"}, s \in {1, 2}, inv \in BOOLEAN, prop \in BOOLEAN, plane \in {"none", "xy", "yz"},
            fmt \in {"tum", "euroc", "kitti"}, export \in {"tum", "kitti"} :
           LET x == Case(nt, useref, down, mf, merge, toff, mode, tf, s, inv, prop, plane, fmt, export) IN
